@@ -144,7 +144,7 @@ def main(argv):
             host = 'Ecl' if '.Ecl.' in os.path.basename(f) else 'Anm'
             lines += run_harness(v, ['text', host, f], seed)
         if not replay:
-            n = 450 if tier == 'quick' else 8000
+            n = 320 if tier == 'quick' else 8000
             lines += run_harness_parallel(v, n, seed, 4 if tier == 'quick' else 12)
         for l in lines:
             parts = l.split('\t')
@@ -171,7 +171,7 @@ def main(argv):
     # (O') the same oracle through the command line tool, on the corpus and a sample of the generated programs
     n_cli = 0
     if h_ok and cases:
-        sample = list(range(min(len(cases), 12))) + list(range(12, len(cases), max(1, len(cases) // (10 if tier == 'quick' else 150))))
+        sample = list(range(min(len(cases), 10))) + list(range(10, len(cases), max(1, len(cases) // (4 if tier == 'quick' else 150))))
         for i in sample:
             host, body = split_src(srcs[i])
             r = cli_roundtrip(host, body, 'cli')
